@@ -187,7 +187,7 @@ def partitions(case, quick, full_two_cut):
         # two cuts: one anywhere, the other within +-8 bytes of a frame boundary
         near = set()
         for (s, e, *_r) in case.offs:
-            for d in (range(-6, 7) if quick else range(-8, 9)):
+            for d in (range(-5, 6) if quick else range(-8, 9)):
                 for p in ((s + d,) if quick else (s + d, e + d)):
                     if 0 < p < n:
                         near.add(p)
@@ -203,7 +203,7 @@ def partitions(case, quick, full_two_cut):
     # three cuts near frame boundaries
     near = set()
     for (s, e, *_r) in case.offs:
-        for d in range(-8 if not quick else -6, 9 if not quick else 7):
+        for d in range(-8 if not quick else -5, 9 if not quick else 6):
             for p in (s + d,):
                 if 0 < p < n:
                     near.add(p)
